@@ -914,6 +914,13 @@ func c20gcs(c *vf.Ctx, i int) {
 		n = 65537 + c.R.Intn(9000)
 		c.Inc("gcs_shared_filter_beyond_65536_elements")
 	}
+	giant := i%160 == 79
+	if giant {
+		// beyond 2^20 elements
+		huge = true
+		n = 1<<20 + 1 + c.R.Intn(3000)
+		c.Inc("gcs_shared_filter_beyond_2^20_elements")
+	}
 	data := make([][]byte, n)
 	for j := range data {
 		data[j] = c.R.Bytes(1 + c.R.Intn(20))
@@ -955,6 +962,9 @@ func c20gcs(c *vf.Ctx, i int) {
 	if huge {
 		qs = qs[:3]
 	}
+	if giant {
+		qs = qs[:2]
+	}
 	for j := range qs {
 		q := &qs[j]
 		m := 1 + c.R.Intn(2*n+2)
@@ -991,6 +1001,9 @@ func c20gcs(c *vf.Ctx, i int) {
 			defer wg.Done()
 			<-start
 			for rep := 0; rep < 2; rep++ {
+				if giant && rep == 1 {
+					break
+				}
 				for j := range qs {
 					q := &qs[(j+g)%len(qs)]
 					var got [4]bool
